@@ -231,6 +231,15 @@ theorem step_spec {base : Image A} {nd : Node A} (hA : A.Lawful) (cfg : Cfg) (hp
     Good base (step cfg nd o).1 ∧ Ext nd (step cfg nd o).1 := by
   cases o with
   | deliver b p => exact ⟨(deliver_spec hA cfg hp h b p).1, (deliver_spec hA cfg hp h b p).2.1⟩
+  | header b p =>
+    simp only [step]
+    split
+    · exact ⟨h, Ext.refl nd⟩
+    · split
+      · exact ⟨⟨⟨h.core.img_eq, h.core.sound, h.core.created, h.core.tip_eq, h.core.idx_closed,
+          h.core.idx_rows, h.core.dirty_idx⟩, h.utxo_eq, h.marker_some⟩,
+          fun _ hx => hx, fun _ hx => hx, fun hm => hm, fun _ hx => hx, List.prefix_refl _⟩
+      · exact ⟨h, Ext.refl nd⟩
   | flushReq =>
     obtain ⟨c, e⟩ := core_flushRequired h.core h.utxo_eq
     exact ⟨⟨c, h.utxo_eq, e.2.2.1 h.marker_some⟩, e⟩
